@@ -74,7 +74,7 @@ def expr_for(rng: random.Random, value: int, names: Dict[str, int], dollar: Opti
     if dollar is not None:
         choices += ['dollar', 'dollar']
     if depth > 0:
-        choices += ['split', 'tern', 'shift', 'div']
+        choices += ['split', 'tern', 'shift', 'div', 'chain']
     kind = rng.choice(choices)
     if kind == 'lit' or depth < 0:
         return lit(rng, value)
@@ -114,6 +114,17 @@ def expr_for(rng: random.Random, value: int, names: Dict[str, int], dollar: Opti
         truth = cond in ('1', '2 > 1', '#5 == 3')
         good, junk = expr_for(rng, value, names, dollar, depth - 1), lit(rng, rng.randrange(1000))
         return f'{cond} ? ({good}) : {junk}' if truth else f'{cond} ? {junk} : ({good})'
+    if kind == 'chain':
+        # conditionals written one after the other WITHOUT parentheses: an else-if chain (c1 ? a : c2 ? b : c), and one in the middle
+        c1, c2 = rng.choice(['1', '0', '3 > 2', '2 == 3']), rng.choice(['1', '0', '1 < 2', '7 != 7'])
+        t1, t2 = c1 in ('1', '3 > 2'), c2 in ('1', '1 < 2')
+        good = expr_for(rng, value, names, dollar, depth - 1)
+        junk = [lit(rng, rng.choice([0, 0, 1, rng.randrange(1000)])) for _ in range(2)]
+        if rng.random() < 0.7:
+            arms = [f'({good})', junk[0], junk[1]] if t1 else ([junk[0], f'({good})', junk[1]] if t2 else [junk[0], junk[1], f'({good})'])
+            return f'{c1} ? {arms[0]} : {c2} ? {arms[1]} : {arms[2]}'
+        arms = ([f'({good})', junk[0], junk[1]] if t2 else [junk[0], f'({good})', junk[1]]) if t1 else [junk[0], junk[1], f'({good})']
+        return f'{c1} ? {c2} ? {arms[0]} : {arms[1]} : {arms[2]}'
     s = rng.randrange(1, 5)
     return f'(({expr_for(rng, value, names, dollar, depth - 1)}) << {s}) >> {s}'
 
